@@ -231,6 +231,9 @@ func runGraphite(e *env, cs *caseRef, w *workload, rng *rand.Rand) {
 		c.GlobalPrefix, c.PrefixCounter, c.PrefixTimer, c.PrefixGauge, c.PrefixSet = pick(graphitePrefixes), pick(graphitePrefixes), pick(graphitePrefixes), pick(graphitePrefixes), pick(graphitePrefixes)
 		c.GlobalSuffix = pick(graphiteSuffixes)
 	}
+	if w.EdgeTags && c.Mode != "" {
+		c.Mode = "tags" // the family is about how tags are written
+	}
 	cs.Config = c
 	v := viper.New()
 	v.Set("graphite.address", "127.0.0.1:2003")
